@@ -72,6 +72,17 @@ PROPS = {
         ],
         "assumptions": ["synctest.Wait() quiescence = the server has finished processing the message"],
     },
+    "C13": {
+        "level": "model_checking",
+        "engine": "explore (bounded-exhaustive product) under virtual time",
+        "technique": "bounded-exhaustive enumeration of all ping-outcome patterns x thresholds x intervals x session kinds on real sessions against a scripted raw-wire peer, in virtual time (synctest), compared with a reference failure detector",
+        "claim": "every pattern over {answered, error, timeout, method-not-found, connection break} of length <= threshold+2, thresholds 0..3, intervals 2s/7s, client and server sessions: the session is closed iff max(threshold,1) consecutive pings failed, not before that miss completed and no later than that many intervals plus one ping timeout after the peer last answered, after exactly that many pings; never otherwise (still usable at the horizon); pings stop after method-not-found; no goroutine left after Close",
+        "note": "patterns longer than threshold+2 and thresholds above 3 are outside the bound; the goroutine-leak oracle counts goroutines of the (sequential) worker process",
+        "parts": [
+            {"pkg": "mcp", "mode": "plain", "test": "TestVerifC13", "shards": 8},
+        ],
+        "assumptions": ["all timers used by keep-alive go through package time (virtualised by the bubble)"],
+    },
     "C14": {
         "level": "model_checking",
         "engine": "explore (bounded-exhaustive product)",
